@@ -430,9 +430,9 @@ EGEdgeOk(sc, e) ==
   \/ \E i \in CIdx(sc) : LET c == Conn(sc, i) IN
         \/ (c.src = p /\ c.dst = s /\ \E d \in WaitIvs(sc, c) : TLeq(Apply(tp, d), ts))
         \/ (c.async /\ c.src = s /\ c.dst = p)
-\* Deviation of the code, modelled as such: before a serving simulator's step the debug hook adds an edge from the
-\* LAST step of each agent; an agent that has not stepped yet appears as a phantom node with time -1.
-EGPhantom(sc, n) == n[2][1] < 0 /\ \E i \in CIdx(sc) : Conn(sc, i).async /\ Conn(sc, i).dst = n[1]
+\* (Until the repair of D31 the debug hook added an edge from the LAST step of each agent even if the agent had not stepped
+\* yet, which showed up as a phantom node with time -1; no node is tolerated any more that is not a step.)
+EGPhantom(sc, n) == FALSE
 RefEG(sc, h, ev) ==
   [h |-> h,
    v |-> Cond(LET real == {n \in ev.nodes : ~EGPhantom(sc, n)} IN
